@@ -36,7 +36,7 @@ var verifUintTypes = map[int]reflect.Type{
 func VerifDecodeInt(bits int, signed bool, buf []byte) (res string) {
 	defer func() {
 		if r := recover(); r != nil {
-			res = "oob"
+			res = fmt.Sprintf("oob %v", r)
 		}
 	}()
 	var t reflect.Type
@@ -45,7 +45,7 @@ func VerifDecodeInt(bits int, signed bool, buf []byte) (res string) {
 	} else {
 		t = verifUintTypes[bits]
 	}
-	dec, err := CompileToGetDecoder(runtime.Type2RType(t))
+	dec, err := CompileToGetDecoder(runtime.Type2RType(reflect.PtrTo(t)))
 	if err != nil {
 		return "err compile"
 	}
